@@ -657,7 +657,7 @@ class Oracle:
             for f in ("type", "mode", "uid", "gid", "mtime", "target", "dev", "content", "xattrs"):
                 setattr(me, f, getattr(n, f))
             me.grp = n.grp
-            me.tags = set(tags) | {"hl-member"}
+            me.tags = set(tags) | {"hl-member"} | (n.tags & {"empty-xattr-from-fs"})
             n.tags.add("hl-member")
             if tag == "linkdir":
                 n.tags.add("linkdir-target")
